@@ -153,6 +153,10 @@ def _convert_internal_expression_to_pddl(
         if comp:
             components.append(comp)
 
+        elif isinstance(expression, Mul):
+            # a factor that is rounded to zero nullifies the entire product, not only the factor.
+            return None
+
     nested_expression = ""
     for component in reversed(components):
         if nested_expression:
@@ -183,13 +187,14 @@ def convert_expr_to_pddl(
     :return: the PDDL expression.
     """
     initial_operator = SYMPY_OP_TO_PDDL_OP[expr.func]
-    return _convert_internal_expression_to_pddl(
+    pddl_expression = _convert_internal_expression_to_pddl(
         expr,
         initial_operator,
         {val: key for key, val in symbolic_vars.items()},
         decimal_digits=decimal_digits,
         should_remove_trailing_zeros=should_remove_trailing_zeros,
     )
+    return pddl_expression if pddl_expression else "0"
 
 
 def transform_expression(
